@@ -249,7 +249,7 @@ def run_shard(tmp, k, items, limit, configs):
 def part_outcomes(ctx, tmp):
     rnd = ctx.rng("mut")
     progs = base_programs(ctx)
-    n_mut = 260 if ctx.tier == "quick" else 3000
+    n_mut = 180 if ctx.tier == "quick" else 3000
     items = [{"id": f"base:{n}", "src": s, "how": "unchanged", "base": n} for n, s in progs.items()]
     names = sorted(progs)
     for i in range(n_mut):
@@ -259,14 +259,14 @@ def part_outcomes(ctx, tmp):
             s, how2 = mutate(s, rnd)
             how += "+" + how2
         items.append({"id": f"mut{i}", "src": s, "how": how, "base": b})
-    for i in range(60 if ctx.tier == "quick" else 600):
+    for i in range(40 if ctx.tier == "quick" else 600):
         txt, how = mutate_json(JSON_ABI, rnd)
         items.append({"id": f"json{i}", "files": {"iabi.json": txt, "user.vy": JSON_USER}, "target": "user.vy", "how": "json-abi:" + how,
                       "base": "JSON_ABI"})
     from vlib import c20_pyconstructs
     items += c20_pyconstructs.items()
     lay_src = CORPUS["with_layout"]["files"]["lay.vy"]
-    for i in range(40 if ctx.tier == "quick" else 400):
+    for i in range(24 if ctx.tier == "quick" else 400):
         txt, how = mutate_json(CORPUS["with_layout"]["layout"], rnd)
         items.append({"id": f"layout{i}", "files": {"layout.json": txt, "lay.vy": lay_src}, "target": "lay.vy", "layout": "layout.json",
                       "how": "layout-override:" + how, "base": "with_layout"})
@@ -359,7 +359,7 @@ def part_valid(ctx, tmp):
     ex_files = {str(f.relative_to(ex_root)): f.read_text() for f in sorted(ex_root.rglob("*")) if f.suffix in (".vy", ".vyi", ".json")}
     ex_list = [rel for rel in sorted(ex_files) if rel.endswith(".vy")]
     if ctx.tier == "quick":
-        ex_list = rnd.sample(ex_list, 6)
+        ex_list = rnd.sample(ex_list, 4)
     for rel in ex_list:
         if rel.endswith(".vy"):
             items.append({"id": f"example:{rel}", "files": ex_files, "target": rel, "paths": [".", str(Path(rel).parent)],
@@ -370,7 +370,7 @@ def part_valid(ctx, tmp):
             items.append({"id": f"abi{i}", "files": {"gen.vy": K["src"], "lib0.vy": K["lib"]}, "target": "gen.vy", "how": "c19_gen", "base": f"abi{i}"})
         else:
             items.append({"id": f"abi{i}", "src": K["src"], "how": "c19_gen", "base": f"abi{i}"})
-    for i in range(24 if ctx.tier == "quick" else 600):
+    for i in range(18 if ctx.tier == "quick" else 600):
         items.append({"id": f"valid{i}", "src": c20_valid_gen.gen_program(rnd), "how": "c20_valid_gen", "base": f"valid{i}"})
     nsh = 3
     shards = [items[k::nsh] for k in range(nsh)]
@@ -402,7 +402,7 @@ def part_env_matrix(ctx, tmp):
     for i, t in enumerate(ENV_TYPES):
         items.append({"id": f"envt{i}", "how": "env-matrix", "base": t, "src": f"@external\ndef f_(x: {t}) -> uint256:\n    return 1\n"})
         items.append({"id": f"envs{i}", "how": "env-matrix", "base": "storage " + t, "src": f"x_: {t}\n\n@external\ndef f_() -> uint256:\n    return 1\n"})
-    configs = [[v, "gas", e] for v in (False, True) for e in ("london", "paris", "shanghai", "cancun", "prague")]
+    configs = [[v, "gas", e] for v in (False, True) for e in (("london", "shanghai", "cancun", "prague") if ctx.tier == "quick" else ("london", "paris", "shanghai", "cancun", "prague"))]
     nsh = 3
     shards = [items[k::nsh] for k in range(nsh)]
     with ThreadPoolExecutor(max_workers=nsh) as ex:
